@@ -133,7 +133,7 @@ pub fn verif_str_from<'a>(s: &'a str, n: usize, Ghost(g): Ghost<Seq<(usize, usiz
 //@ region src/wrapping.rs wrap_line
 //@sig pub fn wrap_line_loop<'a, S: Copy + Default>(wrap_config: &'a WrapConfig, line_rev: Vec<(S, &'a str)>, line_width: usize, fill_style: &S, inline_hint_style: &Option<S>) -> (r: (Vec<LineSections<'a, S>>, CurrLine<'a, S>, Vec<(S, &'a str)>, Stop))
 //@from <<<let mut curr_line = CurrLine::reset();>>>
-//@until <<<// Right-align wrapped line:>>>
+//@until <<<if result.len() == 1 && curr_line.has_text() {>>>
 //@tail (result, curr_line, stack, stop)
 //@| requires line_width <= usize::MAX / 2,
 //@| ensures rows_text(r.0@) + segs_text(r.1.line_segments@) + stack_text(r.2@) =~= stack_text(line_rev@),  // @C07:wrapping.loses.no.text.rows.then.the.open.row.then.the.rest.spell.the.line
